@@ -637,7 +637,7 @@ class SimulationBuilder:
         if value is None:
             return
 
-        array = self.get_input(variable.name, str(period_str))
+        array = self.get_input(variable.name, str(periods.period(period_str)))
 
         if array is None:
             array_size = self.get_count(entity.plural)
@@ -792,7 +792,9 @@ class SimulationBuilder:
             # Distribute values along axes
             for axis in parallel_axes:
                 axis_index = axis.get("index", 0)
-                axis_period = axis.get("period", self.default_period)
+                axis_period = str(
+                    periods.period(axis.get("period", self.default_period)),
+                )
                 axis_name = axis["name"]
                 variable = axis_entity.get_variable(axis_name)
                 array = self.get_input(axis_name, str(axis_period))
@@ -824,7 +826,9 @@ class SimulationBuilder:
                 # Distribute values along the grid
                 for axis in parallel_axes:
                     axis_index = axis.get("index", 0)
-                    axis_period = axis.get("period", self.default_period)
+                    axis_period = str(
+                        periods.period(axis.get("period", self.default_period)),
+                    )
                     axis_name = axis["name"]
                     variable = axis_entity.get_variable(axis_name, check_existence=True)
                     array = self.get_input(axis_name, str(axis_period))
